@@ -90,6 +90,10 @@ def step (st : St) (j : Json) : Except String (St × Json × List Fired) := do
       let oneOk := sigOk "round1OneTime" (← jstrList j "oneTimeSig") mid st.dkgCtx otp
       let a0Ok := sigOk "round1A0" (← jstrList j "a0Sig") mid st.dkgCtx (commitsHex.getD 0 "")
       let (g', e) := submitR1 g mid senderOk commitsHex.length oneOk a0Ok
+      -- a dealer's polynomial has exactly `threshold` coefficients: more would let it deal shares that no threshold
+      -- subset can interpolate back to the group key, fewer would lower the threshold
+      if ierr == "" && commitsHex.length ≠ g.t then
+        fired := fired ++ [{ name := "round1_accepted_with_wrong_number_of_commitments", detail := mkObj [("member", jn mid), ("commitments", jn commitsHex.length), ("threshold", jn g.t)] }]
       if e == .ok then
         let cs := commitsHex.map pt
         let dealer ← jnat j "dealer"
